@@ -160,7 +160,13 @@ type h8Probe struct {
 	Mode string // parse | parse-pos | tokens
 }
 
+// h8Oversize is one byte longer than the input size limit.
+var h8Oversize = []byte("SELECT 1" + strings.Repeat(" ", tokenizer.MaxInputSize-7))
+
 var h8Probes = []h8Probe{
+	// calls the tokenizer refuses before scanning: nothing of an earlier call may remain visible on the instance
+	{"refused-cancelled", "SELECT 1", "refused-cancelled"},
+	{"refused-oversize", "", "refused-oversize"},
 	{"dialect-limit", "SELECT a FROM t LIMIT 10, 20", "parse"},
 	{"strict-semicolons", ";; SELECT 1", "parse"},
 	{"error-location-plain", "SELECT a FROM t WHERE ]", "parse"},
@@ -181,6 +187,25 @@ var h8Probes = []h8Probe{
 // h8Outcome runs one probe on (tk, p) and digests everything observable.
 func h8Outcome(tk *tokenizer.Tokenizer, p *parser.Parser, pr h8Probe) map[string]string {
 	out := map[string]string{}
+	out["dialect"] = string(tk.Dialect())
+	if pr.Mode == "refused-cancelled" || pr.Mode == "refused-oversize" {
+		var err error
+		if pr.Mode == "refused-cancelled" {
+			ctx, cancel := context.WithCancel(context.Background())
+			cancel()
+			_, err = tk.TokenizeContext(ctx, []byte(pr.SQL))
+		} else {
+			_, err = tk.Tokenize(h8Oversize)
+		}
+		if err != nil {
+			out["tokenize-error"] = firstLine(err.Error())
+			if len(out["tokenize-error"]) > 80 {
+				out["tokenize-error"] = out["tokenize-error"][:80]
+			}
+		}
+		out["comments"] = dump.Dump(tk.Comments)
+		return out
+	}
 	toks, err := tk.Tokenize([]byte(pr.SQL))
 	if err != nil {
 		out["tokenize-error"] = fmt.Sprintf("%+v", shapeOf(err))
@@ -268,7 +293,7 @@ func h8Run(ops []h8Op) (map[string]string, map[string][2]string, *h8State) {
 		used := h8Outcome(s.tk, s.p, pr)
 		ftk, fp := h8Fresh(s.cfg)
 		fresh := h8Outcome(ftk, fp, pr)
-		for _, aspect := range []string{"tokenize-error", "tokens", "comments", "tree", "error"} {
+		for _, aspect := range []string{"dialect", "tokenize-error", "tokens", "comments", "tree", "error"} {
 			if used[aspect] != fresh[aspect] {
 				diffs[pr.Name] = aspect
 				detail[pr.Name] = [2]string{used[aspect], fresh[aspect]}
@@ -320,10 +345,14 @@ func c08Child(a *ChildArgs) {
 		for probe, aspect := range diffs {
 			// shrink: drop operations while the same probe still differs in the same aspect
 			min := append([]h8Op(nil), ops...)
+			runs := 0
 			for changed := true; changed; {
 				changed = false
 				for k := 0; k < len(min); k++ {
 					cand := append(append([]h8Op(nil), min[:k]...), min[k+1:]...)
+					if runs++; runs%8 == 0 {
+						runtime.GC() // the collector is off (see above): shrinking must not pile up garbage without bound
+					}
 					d2, _, _ := h8Run(cand)
 					if d2[probe] == aspect {
 						min = cand
